@@ -102,6 +102,7 @@ type Path struct {
 	clockSec, clockNsec *Term // last clock reading (monotone clock model)
 	nextTag             string
 	blobs               []Iface // JSON identity codec snapshots
+	blobIndex           map[string]int
 	elemOrigin          map[*Value]elemRef
 	undo                []undoRec
 	atomicDepth         int
